@@ -311,6 +311,23 @@ func (p *Program) ground(check string) *GroundResult {
 				fail("empty id")
 			}
 		}
+	case "deprecatedSuffixFree":
+		res.Statement = "no case variant of an id that is only on the deprecated list has the form '<active or exception id>-only' or '<active or exception id>-or-later' (so the case-sensitive suffix rules of the normalisation never apply to a re-cased deprecated id; hypothesis of lemma foldClassDeprecated)"
+		for _, id := range t.Deprecated {
+			if foldIn(t.Active, id) || foldIn(t.Exceptions, id) {
+				continue
+			}
+			res.Rows++
+			l := strings.ToLower(id)
+			for _, suf := range []string{"-only", "-or-later"} {
+				if strings.HasSuffix(l, suf) {
+					base := id[:len(id)-len(suf)]
+					if foldIn(t.Active, base) || foldIn(t.Exceptions, base) {
+						fail(id)
+					}
+				}
+			}
+		}
 	case "noSuffixCollision":
 		res.Statement = "no listed id is itself '-only' or '-or-later' (an empty base id never reaches the lookup as a listed id)"
 		res.Rows = len(all)
